@@ -8,7 +8,8 @@ from pv.canon import T, Exc, Val, outcome, unB
 ID = "C07"
 COQ_REQUIRE = "C07.Run"
 SHARD = 50
-RULE = ("(1) /proc/stat records printed by the spec's kernel printer (read through cpu_times(), cpu_times(percpu=True)): 7-12 counters per line, 0-16 CPUs (ids with gaps), counters from "
+RULE = ("(0) systematic block, never sampled: machines whose per-CPU block of /proc/stat exceeds the 32 KiB read buffer (400/768/2048 CPUs, 10 fields, 5- and 20-digit counters; thorough: 2048/4096 wide, 4096 x 7 fields), the first 32768-byte boundary placed between two cpuN lines / inside a field / inside the cpuN label by padding the aggregate line; record generated from (n, base, step) on both sides, Coq ships size + checksum of the printed bytes, row count, the rows around every boundary, and the len/all-zero of cpu_percent(percpu)/cpu_times_percent(percpu) against the import-time sample; " 
+        "(1) /proc/stat records printed by the spec's kernel printer (read through cpu_times(), cpu_times(percpu=True)): 7-12 counters per line, 0-16 CPUs (ids with gaps), counters from "
         "{0,1,99,2^31,2^32,2^53+1,2^63,2^64-1,10^25,random}, CLOCK_TICKS from {100,250,1000,1,1024}, shuffled/duplicated/missing tail lines; "
         "plus a malformed byte stream. (2) scripts of 2-7 calls of cpu_times/cpu_percent/cpu_times_percent (percpu or not; interval None, 0, >0 "
         "with the kernel moving during the sleep, <0) issued by 1-3 real threads in a scripted order, every script after a real re-import of psutil "
